@@ -1,5 +1,6 @@
 """Contains the Credit (coin play) mode code."""
 
+from fractions import Fraction
 from math import floor
 
 from mpf.core.placeholder_manager import NativeTypeTemplate
@@ -95,6 +96,15 @@ class Credits(Mode):
         self._set_free_play_string()
         self._disable_credit_handlers()
 
+    @staticmethod
+    def _exact(value):
+        """Return a currency value as the exact fraction it was written as.
+
+        Prices and coin values are configured as decimals (0.1, 0.35). The nearest float is not that number, so dividing
+        floats gives 0.3 / 0.1 = 2.9999999999999996 and int() makes 2 out of it: two dimes would buy a 30 cent game.
+        """
+        return Fraction(str(value))
+
     def _calculate_credit_units(self):
         # "credit units" are how we handle fractional credits (since most
         # pinball machines show credits as fractions instead of decimals).
@@ -107,17 +117,17 @@ class Credits(Mode):
         # values relate to game cost.
 
         if self.credits_config['switches']:
-            min_currency_value = min(x['value'].evaluate([]) for x in
+            min_currency_value = min(self._exact(x['value'].evaluate([])) for x in
                                      self.credits_config['switches'])
         else:
             try:
-                min_currency_value = (
+                min_currency_value = self._exact(
                     self.credits_config['pricing_tiers'][0]['price'].evaluate([]))
             except IndexError:
                 min_currency_value = 1
 
         try:
-            price_per_game = self.credits_config['pricing_tiers'][0]['price'].evaluate([])
+            price_per_game = self._exact(self.credits_config['pricing_tiers'][0]['price'].evaluate([]))
             if self.credits_config['pricing_tiers'][0]['credits'] != NativeTypeTemplate(1, self.machine):
                 raise AssertionError("First pricing_tier entry has to give exactly one credits.")
         except IndexError:
@@ -168,7 +178,7 @@ class Credits(Mode):
 
         for index, pricing_tier in enumerate(self.credits_config['pricing_tiers']):
             price = pricing_tier['price'].evaluate([])
-            credit_units = price / self.credit_unit
+            credit_units = self._exact(price) / self.credit_unit
             credits_in_tier = pricing_tier['credits'].evaluate([])
             actual_credit_units = self.credit_units_per_game * credits_in_tier
             bonus = actual_credit_units - credit_units
@@ -427,7 +437,7 @@ class Credits(Mode):
 
     def _credit_switch_callback(self, value, audit_class, key_name):
         self.info_log("Credit switch hit. Credit Added. Value: %s. Type: %s keyName: %s", value, audit_class, key_name)
-        self._add_credit_units(credit_units=value / self.credit_unit)
+        self._add_credit_units(credit_units=self._exact(value) / self.credit_unit)
         self._audit(value, audit_class, key_name)
         self._reset_timeouts()
 
